@@ -20,8 +20,10 @@ SQLAlchemy based feed implementation.
 import functools
 import hashlib
 import logging
+import os
 import pathlib
 import re
+import threading
 import types
 import typing
 
@@ -104,7 +106,11 @@ class Results:
             else:
                 LOGGER.debug('Disk cache miss for %s', statement)
                 frame = loader(statement)
-                frame.to_parquet(path, index=False)
+                # written aside and renamed: an interrupted write must not leave a truncated file under the final
+                # name (every later process would take it for the cached result and fail reading it)
+                temp = path.with_name(f'.{path.name}.{os.getpid()}.{threading.get_ident()}.tmp')
+                frame.to_parquet(temp, index=False)
+                temp.replace(path)
             self._frames[key] = frame
         else:
             LOGGER.debug('Memory cache hit for %s', statement)
